@@ -27,6 +27,7 @@ type LoopSpec struct {
 	Unroll     int // 0 = cut with invariant
 	Assigns    []string
 	AssignsSet bool
+	Lets       [][2]string
 }
 
 // Contract is the parsed //@ block of one function (or interface method).
@@ -46,6 +47,7 @@ type Contract struct {
 	IsIface    bool
 	Lets       [][2]string // let name = expr (evaluated at entry)
 	Pure       bool
+	Private    string // expression: object whose memory unknown callees cannot reach
 	SiteProps  []string // properties of field invariants whose store sites this function contains
 	Synth      bool // synthesised: exists only to be checked against an interface contract
 }
@@ -68,7 +70,7 @@ func (c *Contract) hasMode(m string) bool {
 var clauseKeywords = map[string]bool{
 	"func": true, "props": true, "mode": true, "requires": true, "ensures": true,
 	"assigns": true, "decreases": true, "loop": true, "let": true, "global": true,
-	"lemma": true, "pure": true, "fieldinv": true,
+	"lemma": true, "pure": true, "fieldinv": true, "private": true, "table": true,
 }
 
 var nameRe = regexp.MustCompile(`^([A-Za-z_][A-Za-z0-9_\[\]\.\-]*)(\{[A-Z0-9, ]+\})?:\s*(.*)$`)
@@ -96,6 +98,7 @@ type ContractFile struct {
 	Contracts []*Contract
 	Globals   []*GlobalFact
 	FieldInvs []*FieldInv
+	Tables    []*GlobalFact
 }
 
 // parseContractFile reads the //@ blocks of one file.
@@ -153,6 +156,8 @@ func parseContractFile(path, pkgPath string) (*ContractFile, error) {
 			out.Contracts = append(out.Contracts, cur)
 		case "global":
 			out.Globals = append(out.Globals, &GlobalFact{PkgPath: pkgPath, Name: rest, File: base, Line: ln})
+		case "table":
+			out.Tables = append(out.Tables, &GlobalFact{PkgPath: pkgPath, Name: rest, File: base, Line: ln})
 		case "fieldinv":
 			fs := strings.SplitN(rest, " ", 2)
 			tf := strings.SplitN(fs[0], ".", 2)
@@ -171,6 +176,8 @@ func parseContractFile(path, pkgPath string) (*ContractFile, error) {
 				cur.Props = append(cur.Props, strings.Fields(rest)...)
 			case "pure":
 				cur.Pure = true
+			case "private":
+				cur.Private = rest
 			case "mode":
 				fs := strings.SplitN(rest, " ", 2)
 				v := ""
@@ -239,6 +246,13 @@ func parseContractFile(path, pkgPath string) (*ContractFile, error) {
 							ls.Assigns = append(ls.Assigns, strings.TrimSpace(p))
 						}
 					}
+				case "let":
+					pp := strings.SplitN(r2, "=", 2)
+					if len(pp) != 2 {
+						return nil, fmt.Errorf("%s:%d: bad loop let", path, ln)
+					}
+					ls.Lets = append(ls.Lets, [2]string{strings.TrimSpace(pp[0]), strings.TrimSpace(pp[1])})
+					last = &ls.Lets[len(ls.Lets)-1][1]
 				case "decreases":
 				default:
 					return nil, fmt.Errorf("%s:%d: unknown loop clause %q", path, ln, sub)
